@@ -1,3 +1,8 @@
+/-
+C27 helper lemmas: the association-map database of Model/C27 (get/put/del/flush read-back laws) and
+the byte keys of dot/state/slot.go (injectivity of `slotKey` on uint64, `slotKey ≠ startKey`, le64
+round trip).  Core Lean only.
+-/
 import Gossamer.Model.C27
 open Gossamer Gossamer.C27
 namespace Gossamer.C27
